@@ -249,16 +249,19 @@ def mutant_work(job):
         try: xml.dom.minidom.parseString(x)
         except Exception: continue          # the statement is about well-formed XML
         jid = 'm%d' % sd
-        jobs.append((jid, T.job_text(jid, rng.choice(['large', 'fast']), x, hist[:3], maxsteps=200, flags=['validate', 'novars'])))
-        meta[jid] = (x, hist[:3], dm)
-    raw = T.run_jobs(binary, jobs)
+        eng = rng.choice(['large', 'fast'])
+        jobs.append((jid, T.job_text(jid, eng, x, hist[:3], maxsteps=200, flags=['validate', 'novars'])))
+        meta[jid] = (x, hist[:3], dm, eng)
+    raw = T.run_jobs(binary, jobs, timeout_per_job=1)
     out = []
-    for jid, (x, hist, dm) in meta.items():
+    for jid, (x, hist, dm, eng) in meta.items():
         r = raw.get(jid, {'crash': 'no result', 'timeout': False, 'lines': []})
         rec = {'id': jid, 'v': 'ok'}
-        if r['timeout']: rec['v'] = 'bad'; rec['k'] = 'mutant:hang'; rec['replay'] = {'xml': x, 'history': hist}
+        if r['timeout']:
+            validated = any(l.startswith('VDONE') for l in r['lines'])
+            rec['v'] = 'bad'; rec['k'] = 'mutant:hang:%s:%s' % (eng, 'while-stepping' if validated else 'in-validate-or-parse'); rec['replay'] = {'xml': x, 'history': hist, 'engine': eng}
         elif r['crash']:
-            rec['v'] = 'bad'; rec['k'] = 'mutant:crash:' + str(r['crash'])[:100]; rec['replay'] = {'xml': x, 'history': hist, 'stderr': r.get('stderr')}
+            rec['v'] = 'bad'; rec['k'] = 'mutant:crash:' + str(r['crash'])[:100]; rec['replay'] = {'xml': x, 'history': hist, 'engine': eng, 'stderr': r.get('stderr')}
         rec['threw'] = any(l.startswith('THROW') for l in r['lines'])
         out.append(rec)
     return out
